@@ -2,7 +2,7 @@
 from ..build import AnalysisBroken
 from ..mast import walk, calls, callee, strip_casts, Machine, Unsupported, pp
 from ..facts import short
-from . import common
+from . import common, c10_lists
 
 PRIORITY = {'eMatchScoreNone': float('-inf'), 'eMatchScoreNodeTest': -0.5, 'eMatchScoreNSWild': -0.25, 'eMatchScoreQName': 0.0, 'eMatchScoreOther': 0.5}
 
@@ -110,3 +110,4 @@ def run(res, facts, tier):
                     r2.violation(site, 'target name is null', common.file_line(a))
                 else:
                     r2.violation(site, 'classified %s, XSLT 1.0 §5.5 requires %s' % (sname and sname[0], want), common.file_line(a))
+    c10_lists.run(res, facts, tier)
